@@ -483,9 +483,21 @@ impl P2p {
         // User can give us a bad header, so validate it.
         from.validate().map_err(|_| HeaderExError::InvalidRequest)?;
 
+        // Nothing follows `from` for an amount of zero. Such a request is refused by
+        // `HeaderExClientHandler` too, and a `HeaderSession` would retry it forever.
+        if amount == 0 {
+            return Err(HeaderExError::InvalidRequest.into());
+        }
+
         let height = from.height() + 1;
 
-        let range = height..=height + amount - 1;
+        // `height + amount` must not overflow, a range like that can never be served.
+        let end = height
+            .checked_add(amount)
+            .ok_or(HeaderExError::InvalidRequest)?
+            - 1;
+
+        let range = height..=end;
 
         let mut session = HeaderSession::new(range, self.cmd_tx.clone());
         let headers = session.run().await?;
